@@ -7,6 +7,24 @@ CHECKS = {
         "technique": "Rocq proof (round-trip theorem) + model/implementation correspondence",
         "ref": "DESIGN.md 5 C12",
     },
+    "C16": {
+        "text": "Kernel-checked theorems over ALL multi-node histories (induction over event lists: StoreLogs of arbitrary batches on any node, DeleteRange, middleware restarts, at-rest tampering, verifier steps): the middleware's running sum is always the FNV chain over exactly the entries written since sumStartIdx and still held (C16_written_sum); hence a range stored as the leader checksummed it and read back unchanged yields a report without any error (C16_no_false_alarm), and a node whose log starts after Range.Start reports ErrRangeMismatch (C16_range_mismatch). The executable model is tied to verifier/store.go + verifier.go by differential execution of the same histories on the real verifier.LogStore (over InmemStore and over the real WAL), with a ground-truth oracle that is independent of the model.",
+        "note": "Trusted: Coq kernel, extraction (ExtrOcamlBasic), harness incl. its contract guard under the middleware. Verification reads are atomic w.r.t. writers (the store at that moment is a free parameter of the theorems). StoreLogs/DeleteRange atomic w.r.t. each other.",
+        "technique": "Rocq proof (history invariant + refinement of the contiguous-log spec) + model/implementation correspondence + ground-truth oracle",
+        "ref": "DESIGN.md 5 C16, 10 vfy",
+    },
+    "C17": {
+        "text": "Kernel-checked: the chained checksum is FNV-1a from state 0 over an explicit byte stream (C17_chain_is_fnv_of_stream); each FNV step is a bijection of uint64 (C17_fnv_step_bijective) so a divergence is never masked by later bytes and equal-length streams differing in one byte never collide (no caveat); detection theorem with the stream collision as explicit disjunct (C17_detect), every mutation leaving Data or Extensions alone changes the stream, in-flight blame is sound over all histories (C17_blame_inflight_sound). The clause 'any entry differs in Data or Extensions' is REFUTED on the faithful model: bytes moved across the Data/Extensions boundary hash identically (C17_stream_not_injective_refuted) -- open known finding data-ext-boundary-shift, reproduced on the implementation every run; any other undetected mutation is a VIOLATION.",
+        "note": "Partial by refutation: injectivity of the hashed stream fails across the Data/Extensions boundary (wire-compatibility, not fixed). Multi-entry re-framings of the stream are outside the property's single-field quantifier and are covered only by the collision disjunct.",
+        "technique": "Rocq proof (algebra of FNV-1a mod 2^64, stream characterisation) + refutation witness + model/implementation correspondence + mutation sweep with ground-truth oracle",
+        "ref": "DESIGN.md 5 C17, 10 vfy",
+    },
+    "C18": {
+        "text": "Kernel-checked: StoreLogs/DeleteRange through the middleware equal the same calls on the underlying store with a leader checkpoint gaining exactly the 24-byte metadata, errors leave store and verifier state untouched, foreign Extensions on a checkpoint are refused (C18_passthrough*, for every node state hence every sequence); small-step model of the 1-buffered verifyCh over ALL schedules of {StoreLogs caller, verifier goroutine, ReportFn return}: the caller's sends always complete even with no ReportFn return at all (C18_store_never_blocks), delivered+dropped+in_channel+in_progress+unsent = checkpoints at every point (C18_accounting), every processed report names exactly the range tiled by the checkpoints dropped before it (C18_skipped_range). Tied to the code by differential execution incl. deliberately blocked ReportFn, with twin-store, time-limit and accounting oracles on the implementation.",
+        "note": "Schedules are interleavings of atomic channel operations (Go memory model trusted). SkippedRange is per LogStore lifetime: the first report after a middleware restart names none.",
+        "technique": "Rocq proof (schedule-universal invariants of a small-step channel model; pass-through refinement) + model/implementation correspondence + twin-store / blocking / accounting oracles",
+        "ref": "DESIGN.md 5 C18, 10 vfy",
+    },
 }
 
 _pending = "check not built yet in this round (machinery under construction; see DESIGN.md section 10)"
